@@ -414,7 +414,7 @@ def check(ctx: Ctx):
     check_no_wraparound(ctx)
     from . import c02, c10
 
-    for fn, rule in ((check_chain, "R07.1"), (check_edt, "R07.4"), (check_connectivity_defaults, "R07.5"), (c10.check_bbox, "R10.2"), (c02.check_single_instance, "R02.5")):
+    for fn, rule in ((check_chain, "R07.1"), (check_edt, "R07.4"), (check_connectivity_defaults, "R07.5"), (c10.check_bbox, "R10.2"), (c10.check_crop_mask, "R10.3"), (c02.check_single_instance, "R02.5")):
         try:
             fn(ctx)
         except (Undecided, AnchorMissing) as e:
